@@ -214,12 +214,11 @@ func TestConcurrentSharing(t *testing.T) {
 			Procs: rapid.SampledFrom([]int{2, 4, 16}).Draw(t, "procs"), OracleAfter: rapid.Bool().Draw(t, "oracleAfter")}
 		n := rapid.IntRange(1, 3).Draw(t, "specs")
 		for i := 0; i < n; i++ {
-			sp := hist.DrawSchemaSpec(t, fmt.Sprint("s", i), rapid.SampledFrom([]int{0, 1, 2, 0, 1, 2, 4, 5, 6, 6}).Draw(t, "family"))
-			if c.ShareTypes && usesAllOf(sp) && os.Getenv("VERIF_C12_NOAVOID") == "" {
-				// recorded finding C12-shared-type-with-allOf: compiling a root rewrites the nodes of
-				// every added type in place; plans avoid sharing type objects that use allOf
-				run.Avoided("shared-type-objects-with-allOf")
-				c.ShareTypes = false
+			sp := hist.DrawSchemaSpec(t, fmt.Sprint("s", i), rapid.SampledFrom([]int{0, 1, 2, 0, 1, 2, 3, 4, 5, 6, 6}).Draw(t, "family"))
+			if c.ShareTypes && usesAllOf(sp) {
+				// (until 71a7e05 compiling a root rewrote the nodes of every added type that uses allOf,
+				// and plans avoided sharing such type objects; nothing is avoided any more)
+				run.Label("shared-type-objects-with-allOf")
 			}
 			c.Specs = append(c.Specs, sp)
 		}
